@@ -10,6 +10,12 @@ for name in sorted(os.listdir(ROOT)):
         continue
     d = os.path.join(ROOT, name)
     meta = json.load(open(os.path.join(d, "meta.json")))
+    if meta.get("ineffective_since"):
+        rows.append((name, "-", "skipped: no longer observable since %s" % meta["ineffective_since"]["repo_commit"]))
+        continue
+    if not meta["caught_by_quick_checks"]:
+        rows.append((name, "-", "recorded as NOT CAUGHT"))
+        continue
     w = tempfile.mkdtemp(prefix="sm.", dir="/tmp")
     os.rmdir(w)
     subprocess.check_call(["git", "-C", "/repo", "worktree", "add", "-q", "--detach", w, "HEAD"])
